@@ -387,6 +387,9 @@ func (bsp *batchSpanProcessor) enqueueBlockOnQueueFull(ctx context.Context, sd R
 		return true
 	case <-ctx.Done():
 		return false
+	case <-bsp.stopCh:
+		// The worker is gone or leaving: nobody may ever make room in the queue.
+		return false
 	}
 }
 
